@@ -205,7 +205,8 @@ class DataArray(Entity, DataSet):
         # a refused append must not leave a half-created descriptor behind
         dimgroup = self._h5group.open_group("dimensions")
         if str(index) in dimgroup:
-            dimgroup.delete(str(index))
+            # (the group itself stays: handles are bound to it)
+            dimgroup.delete(str(index), delete_if_empty=False)
 
     def delete_dimensions(self):
         """
